@@ -1,5 +1,6 @@
 #!/bin/sh
 # usage: tools/confirm_mut.sh <worktree> <mN> [extra cargo flags for the demo, e.g. --release]
+# DEMO_RUSTFLAGS (env) sets RUSTFLAGS for the demo only (e.g. "--cfg loom").
 # DEMO_CMD (env) overrides the demo command (default: cargo test --offline <flags> --test demo_confirm), e.g. for Miri / loom demos.
 # Confirms, in the scratch worktree: patch applies; crate builds; baseline tests pass with it;
 # demo FAILS with it; demo PASSES without it.  Prints a JSON line.
@@ -11,8 +12,8 @@ cp "out/$m/demo.rs" tests/demo_confirm.rs
 base=$(cargo test --offline --lib --tests --no-fail-fast 2>&1 | grep -E "^test result" | grep -v demo | awk '{f+=$6} END{print f+0}')
 suite=$(cargo test --offline --lib 2>&1 | grep -E "^test result" | head -1)
 demo="${DEMO_CMD:-cargo test --offline $extra --test demo_confirm}"
-$demo >"$wt/confirm_with.log" 2>&1; with=$?
+if [ -n "$DEMO_RUSTFLAGS" ]; then RUSTFLAGS="$DEMO_RUSTFLAGS" $demo >"$wt/confirm_with.log" 2>&1; with=$?; else $demo >"$wt/confirm_with.log" 2>&1; with=$?; fi
 git checkout -q -- .
-$demo >"$wt/confirm_without.log" 2>&1; without=$?
+if [ -n "$DEMO_RUSTFLAGS" ]; then RUSTFLAGS="$DEMO_RUSTFLAGS" $demo >"$wt/confirm_without.log" 2>&1; without=$?; else $demo >"$wt/confirm_without.log" 2>&1; without=$?; fi
 rm -f tests/demo_confirm.rs
 echo "{\"mut\":\"$m\",\"applies\":true,\"baseline_lib\":\"$suite\",\"demo_with_mutation_rc\":$with,\"demo_without_rc\":$without}"
